@@ -17,6 +17,8 @@ open SoyVerif SoyVerif.Model SoyVerif.Model.JsGen SoyVerif.Spec.JsSemRef SoyVeri
 open SoyVerif.Spec.JsSem (JsOp exact)
 open SoyVerif.Props.C04 (opOf)
 open SoyVerif.Props.C04c (toAst accAst toJsV EnvRel fn1Of fn2Of)
+
+variable {ent : Spec.Eval.Binds}
 open SoyVerif.Props.C04d
 open SoyVerif.Spec.Eval (Val Out)
 
@@ -246,7 +248,7 @@ theorem loop_ne_error {jenv : JEnv} (sc : Scope) (name : Bytes) (args : ExprList
 
 /-- PARTIAL (C04, converse at the expression level): under the environment relation, if the JavaScript
     text of an expression of the fragment THROWS, the specification gives the expression no value. -/
-theorem expr_no_throw (sc : Scope) (env : SEnv) (jenv : JEnv) (hrel : EnvRel sc env jenv) :
+theorem expr_no_throw (sc : Scope) (env : SEnv) (jenv : JEnv) (hrel : EnvRel ent sc env jenv) :
     ∀ (e : Expr) (j : JsExpr), toAst sc e = some j → eval jenv j = .error → ∀ v, Spec.Eval.eval env e ≠ .val v
   | .null _, j, h, hj => by
     simp only [toAst, Option.some.injEq] at h; subst h
@@ -545,7 +547,7 @@ theorem appendTo_ne_error {buf : Bytes} {jenv : JEnv} {out : Bytes} (hb : BufIs 
     · cases h
 
 section
-variable (F : Bytes → List Expr → JVal → JOut)
+variable (F : Bytes → List Expr → JVal → JOut) (G : Bytes → JVal → JOut)
 
 theorem applyCalls_unspec : ∀ (ds : List Directive), applyCalls F ds .unspec = .unspec
   | [] => rfl
@@ -559,46 +561,46 @@ theorem applyCalls_error_in : ∀ (ds : List Directive), applyCalls F ds .error 
     show applyCalls F ds (JOut.error.bind (F d.name d.args)) = .error
     exact applyCalls_error_in ds
 
-variable (ae : Autoescape) (buf : Bytes)
+variable (R : RefCtx) (ae : Autoescape) (buf : Bytes)
 
 def CmdNe (c : Cmd) : Prop :=
   ∀ (fuel : Nat) (sc : Scope) (r : JsStmts × Scope) (env : SEnv) (jenv : JEnv) (out : Bytes),
-    toCmd ae buf c sc = some r → ScOk sc → GoodBuf sc buf → EnvRel sc env jenv → BufIs buf jenv out →
-    execStmts F fuel r.1 jenv = .error → ∀ x, refCmd F ae c env ≠ .val x
+    toCmd ae buf c sc = some r → ScOk sc → GoodBuf sc buf → EnvRel R.entry sc env jenv → BufIs buf jenv out →
+    execStmts F G fuel r.1 jenv = .error → ∀ x, refCmd F R ae c env ≠ .val x
 
 def BlockNe (b : Block) : Prop :=
   ∀ (fuel : Nat) (sc : Scope) (r : JsStmts × Scope) (env : SEnv) (jenv : JEnv) (out : Bytes),
-    toBlock ae buf b sc = some r → ScOk sc → GoodBuf sc buf → EnvRel sc env jenv → BufIs buf jenv out →
-    execStmts F fuel r.1 jenv = .error → ∀ x, refBlock F ae b env ≠ .val x
+    toBlock ae buf b sc = some r → ScOk sc → GoodBuf sc buf → EnvRel R.entry sc env jenv → BufIs buf jenv out →
+    execStmts F G fuel r.1 jenv = .error → ∀ x, refBlock F R ae b env ≠ .val x
 
 def BodyNe (b : Block) : Prop :=
   ∀ (fuel : Nat) (sc : Scope) (r : JsStmts × Scope) (env : SEnv) (jenv : JEnv) (out : Bytes),
-    toBody ae buf b sc = some r → ScOk sc → GoodBuf sc buf → EnvRel sc env jenv → BufIs buf jenv out →
-    execStmts F fuel r.1 jenv = .error → ∀ x, refBlock F ae b env ≠ .val x
+    toBody ae buf b sc = some r → ScOk sc → GoodBuf sc buf → EnvRel R.entry sc env jenv → BufIs buf jenv out →
+    execStmts F G fuel r.1 jenv = .error → ∀ x, refBlock F R ae b env ≠ .val x
 
 def CmdsNe (cs : CmdList) : Prop :=
   ∀ (fuel : Nat) (sc : Scope) (r : JsStmts × Scope) (env : SEnv) (jenv : JEnv) (out : Bytes),
-    toCmds ae buf cs sc = some r → ScOk sc → GoodBuf sc buf → EnvRel sc env jenv → BufIs buf jenv out →
-    execStmts F fuel r.1 jenv = .error → ∀ x, refCmds F ae cs env ≠ .val x
+    toCmds ae buf cs sc = some r → ScOk sc → GoodBuf sc buf → EnvRel R.entry sc env jenv → BufIs buf jenv out →
+    execStmts F G fuel r.1 jenv = .error → ∀ x, refCmds F R ae cs env ≠ .val x
 
 def CondsNe (cs : CondList) : Prop :=
   ∀ (fuel : Nat) (sc : Scope) (r : JsConds × Scope) (env : SEnv) (jenv : JEnv) (out : Bytes),
-    toConds ae buf cs sc = some r → ScOk sc → GoodBuf sc buf → EnvRel sc env jenv → BufIs buf jenv out →
-    execConds F fuel r.1 jenv = .error → ∀ x, refConds F ae cs env ≠ .val x
+    toConds ae buf cs sc = some r → ScOk sc → GoodBuf sc buf → EnvRel R.entry sc env jenv → BufIs buf jenv out →
+    execConds F G fuel r.1 jenv = .error → ∀ x, refConds F R ae cs env ≠ .val x
 
 def CasesNe (cs : CaseList) : Prop :=
   ∀ (fuel : Nat) (sc : Scope) (r : JsCases × Scope) (env : SEnv) (jenv : JEnv) (out : Bytes) (sv : Val) (jv : JVal),
-    toCases ae buf cs sc = some r → ScOk sc → GoodBuf sc buf → EnvRel sc env jenv → BufIs buf jenv out → toJsV sv = some jv →
-    execCases F fuel r.1 jv jenv = .error → ∀ x, refCases F ae cs sv env ≠ .val x
+    toCases ae buf cs sc = some r → ScOk sc → GoodBuf sc buf → EnvRel R.entry sc env jenv → BufIs buf jenv out → toJsV sv = some jv →
+    execCases F G fuel r.1 jv jenv = .error → ∀ x, refCases F R ae cs sv env ≠ .val x
 
-theorem rawText_ne (p : Nat) (t : Bytes) : CmdNe F ae buf (.rawText p t) := by
+theorem rawText_ne (p : Nat) (t : Bytes) : CmdNe F G R ae buf (.rawText p t) := by
   intro fuel sc r env jenv out h hs hg hrel hb hx
   simp only [toCmd, Option.some.injEq] at h; subst h
   rw [execStmts_one] at hx
   simp only [execStmt] at hx
   exact absurd hx (appendTo_ne_error hb _)
 
-theorem print_ne (p : Nat) (arg : Expr) (dirs : List Directive) : CmdNe F ae buf (.print p arg dirs) := by
+theorem print_ne (p : Nat) (arg : Expr) (dirs : List Directive) : CmdNe F G R ae buf (.print p arg dirs) := by
   intro fuel sc r env jenv out h hs hg hrel hb hx
   unfold toCmd at h
   split at h
@@ -624,7 +626,7 @@ theorem print_ne (p : Nat) (arg : Expr) (dirs : List Directive) : CmdNe F ae buf
     · cases h
   · cases h
 
-theorem letValue_ne (p : Nat) (x : Bytes) (e : Expr) : CmdNe F ae buf (.letValue p x e) := by
+theorem letValue_ne (p : Nat) (x : Bytes) (e : Expr) : CmdNe F G R ae buf (.letValue p x e) := by
   intro fuel sc r env jenv out h hs hg hrel hb hx
   unfold toCmd at h
   split at h
@@ -640,7 +642,7 @@ theorem letValue_ne (p : Nat) (x : Bytes) (e : Expr) : CmdNe F ae buf (.letValue
       · cases hx
     · cases h
 
-theorem ifc_ne (p : Nat) (conds : CondList) (ih : CondsNe F ae buf conds) : CmdNe F ae buf (.ifc p conds) := by
+theorem ifc_ne (p : Nat) (conds : CondList) (ih : CondsNe F G R ae buf conds) : CmdNe F G R ae buf (.ifc p conds) := by
   intro fuel sc r env jenv out h hs hg hrel hb hx
   unfold toCmd at h
   split at h
@@ -652,35 +654,35 @@ theorem ifc_ne (p : Nat) (conds : CondList) (ih : CondsNe F ae buf conds) : CmdN
     exact out_bind_not_val (ih fuel sc rc env jenv out hrc hs hg hrel hb hx)
   · cases h
 
-theorem block_ne (p : Nat) (cmds : CmdList) (ih : CmdsNe F ae buf cmds) : BlockNe F ae buf (.mk p cmds) := by
+theorem block_ne (p : Nat) (cmds : CmdList) (ih : CmdsNe F G R ae buf cmds) : BlockNe F G R ae buf (.mk p cmds) := by
   intro fuel sc r env jenv out h hs hg hrel hb hx
   unfold toBlock at h
   split at h
   · rename_i rc hrc
     simp only [Option.some.injEq] at h; subst h
-    have hrel' : EnvRel sc.push env jenv := envRel_push hrel
+    have hrel' : EnvRel R.entry sc.push env jenv := envRel_push hrel
     simp only [refBlock]
     exact ih fuel sc.push rc env jenv out hrc (scOk_push hs.2) (goodBuf_push hg) hrel' hb hx
   · cases h
 
-theorem body_ne (p : Nat) (cmds : CmdList) (ih : CmdsNe F ae buf cmds) : BodyNe F ae buf (.mk p cmds) := by
+theorem body_ne (p : Nat) (cmds : CmdList) (ih : CmdsNe F G R ae buf cmds) : BodyNe F G R ae buf (.mk p cmds) := by
   intro fuel sc r env jenv out h hs hg hrel hb hx
   unfold toBody at h
   simp only [refBlock]
   exact ih fuel sc r env jenv out h hs hg hrel hb hx
 
-theorem cmds_nil_ne : CmdsNe F ae buf .nil := by
+theorem cmds_nil_ne : CmdsNe F G R ae buf .nil := by
   intro fuel sc r env jenv out h hs hg hrel hb hx
   simp only [toCmds, Option.some.injEq] at h; subst h
   simp [execStmts] at hx
 
-theorem conds_nil_ne : CondsNe F ae buf .nil := by
+theorem conds_nil_ne : CondsNe F G R ae buf .nil := by
   intro fuel sc r env jenv out h hs hg hrel hb hx
   simp only [toConds, Option.some.injEq] at h; subst h
   simp [execConds] at hx
 
-theorem conds_some_ne (p : Nat) (c : Expr) (body : Block) (rest : CondList) (ih1 : BlockNe F ae buf body)
-    (ih2 : CondsNe F ae buf rest) : CondsNe F ae buf (.cons p (some c) body rest) := by
+theorem conds_some_ne (p : Nat) (c : Expr) (body : Block) (rest : CondList) (ih1 : BlockNe F G R ae buf body)
+    (ih2 : CondsNe F G R ae buf rest) : CondsNe F G R ae buf (.cons p (some c) body rest) := by
   intro fuel sc r env jenv out h hs hg hrel hb hx
   unfold toConds at h
   simp only at h
@@ -706,8 +708,8 @@ theorem conds_some_ne (p : Nat) (c : Expr) (body : Block) (rest : CondList) (ih1
     · cases h
   · cases h
 
-theorem conds_else_ne (p : Nat) (body : Block) (rest : CondList) (ih1 : BlockNe F ae buf body) :
-    CondsNe F ae buf (.cons p none body rest) := by
+theorem conds_else_ne (p : Nat) (body : Block) (rest : CondList) (ih1 : BlockNe F G R ae buf body) :
+    CondsNe F G R ae buf (.cons p none body rest) := by
   intro fuel sc r env jenv out h hs hg hrel hb hx
   unfold toConds at h
   simp only at h
@@ -720,8 +722,8 @@ theorem conds_else_ne (p : Nat) (body : Block) (rest : CondList) (ih1 : BlockNe 
   · cases h
 
 
-theorem cmds_cons_ne (c : Cmd) (rest : CmdList) (ih1 : CmdNe F ae buf c) (ih2 : CmdsNe F ae buf rest) :
-    CmdsNe F ae buf (.cons c rest) := by
+theorem cmds_cons_ne (hG : CallRel G R) (c : Cmd) (rest : CmdList) (ih1 : CmdNe F G R ae buf c) (ih2 : CmdsNe F G R ae buf rest) :
+    CmdsNe F G R ae buf (.cons c rest) := by
   intro fuel sc r env jenv out h hs hg hrel hb hx
   unfold toCmds at h
   split at h
@@ -735,7 +737,7 @@ theorem cmds_cons_ne (c : Cmd) (rest : CmdList) (ih1 : CmdNe F ae buf c) (ih2 : 
       simp only [refCmds]
       rcases sres_bind_error hx with hx | ⟨e1, hx1, hx2⟩
       · exact out_bind_not_val (ih1 fuel sc r1 env jenv out h1 hs hg hrel hb hx)
-      · obtain ⟨t1, env1, ht1, hrel1, hb1, _⟩ := cmd_ok F ae c buf fuel sc r1 env jenv e1 out h1 hs hg hrel hb hx1
+      · obtain ⟨t1, env1, ht1, hrel1, hb1, _⟩ := cmd_ok F G R ae hG c buf fuel sc r1 env jenv e1 out h1 hs hg hrel hb hx1
         obtain ⟨a1, _, _⟩ := toCmd_scope ae c buf sc r1 h1 hs
         rw [ht1]
         simp only [Spec.Eval.Out.bind]
@@ -744,7 +746,7 @@ theorem cmds_cons_ne (c : Cmd) (rest : CmdList) (ih1 : CmdNe F ae buf c) (ih2 : 
 /-! ### switch -/
 
 /-- a label that throws: `matchAny` has no value -/
-theorem matchLabels_error {sc : Scope} {env : SEnv} {jenv : JEnv} (hrel : EnvRel sc env jenv) {sv : Val} {jv : JVal}
+theorem matchLabels_error {sc : Scope} {env : SEnv} {jenv : JEnv} (hrel : EnvRel ent sc env jenv) {sv : Val} {jv : JVal}
     (hsv : toJsV sv = some jv) : ∀ (values : List Expr) (js : List JsExpr), astList sc values = some js →
     matchLabels jenv jv js = some (.inl .error) → ∀ b, Spec.Eval.matchAny env sv values ≠ .val b
   | [], js, h, hm => by
@@ -780,13 +782,13 @@ theorem matchLabels_error {sc : Scope} {env : SEnv} {jenv : JEnv} (hrel : EnvRel
         | error => exact out_bind_not_val (expr_no_throw sc env jenv hrel v j hj hw)
         | unspec => simp [hw] at hm
 
-theorem cases_nil_ne : CasesNe F ae buf .nil := by
+theorem cases_nil_ne : CasesNe F G R ae buf .nil := by
   intro fuel sc r env jenv out sv jv h hs hg hrel hb hsv hx
   simp only [toCases, Option.some.injEq] at h; subst h
   simp [execCases] at hx
 
-theorem cases_cons_ne (p : Nat) (values : List Expr) (body : Block) (rest : CaseList) (ih1 : BlockNe F ae buf body)
-    (ih2 : CasesNe F ae buf rest) : CasesNe F ae buf (.cons p values body rest) := by
+theorem cases_cons_ne (p : Nat) (values : List Expr) (body : Block) (rest : CaseList) (ih1 : BlockNe F G R ae buf body)
+    (ih2 : CasesNe F G R ae buf rest) : CasesNe F G R ae buf (.cons p values body rest) := by
   intro fuel sc r env jenv out sv jv h hs hg hrel hb hsv hx
   unfold toCases at h
   obtain ⟨rbv, hrb, hc⟩ := caseJoin_some h
@@ -821,8 +823,8 @@ theorem cases_cons_ne (p : Nat) (values : List Expr) (body : Block) (rest : Case
           obtain ⟨a1, a2⟩ := toBlock_scope ae body buf sc rbv hrb hs
           exact ih2 fuel rbv.2 rr env jenv out sv jv hrr (scOk_of_stack hs a1 a2) (goodBuf_of_stack hg a1 a2) (envRel_stack hrel a1) hb hsv hx
 
-theorem switch_ne (p : Nat) (value : Expr) (cases : CaseList) (ih : CasesNe F ae buf cases) :
-    CmdNe F ae buf (.switch p value cases) := by
+theorem switch_ne (p : Nat) (value : Expr) (cases : CaseList) (ih : CasesNe F G R ae buf cases) :
+    CmdNe F G R ae buf (.switch p value cases) := by
   intro fuel sc r env jenv out h hs hg hrel hb hx
   unfold toCmd at h
   split at h
@@ -843,11 +845,11 @@ theorem switch_ne (p : Nat) (value : Expr) (cases : CaseList) (ih : CasesNe F ae
 
 /-- the state in which the foreach loop starts -/
 theorem foreach_e3 {sc : Scope} (hs : ScOk sc) (hg : GoodBuf sc buf) (v : Bytes) (hv : v.contains 36 = false) (env : SEnv) (jenv : JEnv)
-    (out : Bytes) (hrel : EnvRel sc env jenv) (hb : BufIs buf jenv out) (js : List JVal) (xl xn xi : Bytes)
+    (out : Bytes) (hrel : EnvRel ent sc env jenv) (hb : BufIs buf jenv out) (js : List JVal) (xl xn xi : Bytes)
     (hxl : xl = Scope.jsname v b!"List" (sc.n + 1)) (hxn : xn = Scope.jsname v b!"Limit" (sc.n + 1))
     (hxi : xi = Scope.jsname v b!"Index" (sc.n + 1)) (e3 : JEnv)
     (he3 : e3 = setLocal (setLocal (setLocal jenv xl (.arr js)) xn (.num js.length)) xi (.num 0)) :
-    EnvRel sc env e3 ∧ BufIs buf e3 out ∧ Keeps buf sc.n jenv e3 ∧
+    EnvRel ent sc env e3 ∧ BufIs buf e3 out ∧ Keeps buf sc.n jenv e3 ∧
       e3.locals.find? (·.1 == xl) = some (xl, .arr js) ∧ e3.locals.find? (·.1 == xn) = some (xn, .num js.length) ∧
       e3.locals.find? (·.1 == xi) = some (xi, .num ((0 : Nat) : Int)) := by
   subst he3
@@ -881,19 +883,19 @@ theorem foreach_e3 {sc : Scope} (hs : ScOk sc) (hg : GoodBuf sc buf) (v : Bytes)
 
 /-- an iteration that throws: `loopSpec` has no value -/
 theorem loop_ne {sc : Scope} (hs : ScOk sc) (hg : GoodBuf sc buf) (v : Bytes) (hv : v.contains 36 = false) (body : Block)
-    (rb : JsStmts × Scope) (hrb : toBody ae buf body (sc.pushForEach v).2 = some rb) (ihb : BodyOk F ae buf body)
-    (ihn : BodyNe F ae buf body)
+    (rb : JsStmts × Scope) (hrb : toBody ae buf body (sc.pushForEach v).2 = some rb) (ihb : BodyOk F G R ae buf body)
+    (ihn : BodyNe F G R ae buf body)
     (env : SEnv) (xs : List Val) (js : List JVal) (hxs : C04c.toJsList xs = some js) (fuel last : Nat)
     (hexl : exact (js.length : Int) = true) (hlast : xs ≠ [] → xs.length = last + 1)
     (lv xl xn xi : Bytes) (hlv : lv = Scope.jsname v [] (sc.n + 1)) (hxl : xl = Scope.jsname v b!"List" (sc.n + 1))
     (hxn : xn = Scope.jsname v b!"Limit" (sc.n + 1)) (hxi : xi = Scope.jsname v b!"Index" (sc.n + 1)) :
     ∀ (rest : List Val) (i : Nat), xs.drop i = rest → ∀ (k : Nat) (e : JEnv) (out : Bytes),
-      EnvRel sc env e → BufIs buf e out →
+      EnvRel R.entry sc env e → BufIs buf e out →
       e.locals.find? (·.1 == xl) = some (xl, .arr js) →
       e.locals.find? (·.1 == xn) = some (xn, .num js.length) →
       e.locals.find? (·.1 == xi) = some (xi, .num i) →
-      execLoop (execStmts F fuel (.cons (.varIndex lv xl xi) rb.1)) xi xn k e = .error →
-      ∀ t, Spec.Eval.loopSpec (refBlock F ae body) env v last rest i ≠ .val t := by
+      execLoop (execStmts F G fuel (.cons (.varIndex lv xl xi) rb.1)) xi xn k e = .error →
+      ∀ t, Spec.Eval.loopSpec (refBlock F R ae body) env v last rest i ≠ .val t := by
   have uL : IsUse b!"List" := Or.inr (Or.inl rfl)
   have uN : IsUse b!"Limit" := Or.inr (Or.inr (Or.inl rfl))
   have uI : IsUse b!"Index" := Or.inr (Or.inr (Or.inr (Or.inl rfl)))
@@ -957,7 +959,7 @@ theorem loop_ne {sc : Scope} (hs : ScOk sc) (hg : GoodBuf sc buf) (v : Bytes) (h
         have := C04c.toJsList_getD xs js i hxs
         rw [List.getD_eq_getElem?_getD, List.getElem?_eq_getElem hlt, Option.getD_some, hitem] at this
         exact this
-      have hrel_a : EnvRel (sc.pushForEach v).2
+      have hrel_a : EnvRel R.entry (sc.pushForEach v).2
           { (env.bind v item) with loops := (v, i, last) :: env.loops } (setLocal e lv (js.getD i .undefined)) := by
         have hne : xs ≠ [] := by intro e0; rw [e0] at hlt; cases hlt
         rw [hlv]
@@ -1055,20 +1057,20 @@ theorem loop_first' {body : JEnv → SRes} {i lim step idx : Bytes} {k : Nat} {e
       exact ⟨_, _, rfl, rfl⟩
 
 theorem range_loop_ne {sc : Scope} (hs : ScOk sc) (hg : GoodBuf sc buf) (v : Bytes) (hv : v.contains 36 = false) (body : Block)
-    (rb : JsStmts × Scope) (hrb : toBody ae buf body (sc.pushForRange v).2 = some rb) (ihb : BodyOk F ae buf body)
-    (ihn : BodyNe F ae buf body)
+    (rb : JsStmts × Scope) (hrb : toBody ae buf body (sc.pushForRange v).2 = some rb) (ihb : BodyOk F G R ae buf body)
+    (ihn : BodyNe F G R ae buf body)
     (env : SEnv) (l s : Int) (hspos : 0 < s) (fuel last : Nat)
     (lv xn xs xi : Bytes) (hlv : lv = Scope.jsname v [] (sc.n + 1)) (hxn : xn = Scope.jsname v b!"Limit" (sc.n + 1))
     (hxs : xs = Scope.jsname v b!"Step" (sc.n + 1)) (hxi : xi = Scope.jsname v b!"Index" (sc.n + 1)) :
     ∀ (k : Nat) (a : Int) (idx : Nat) (e : JEnv) (out : Bytes),
       exact a = true → exact (idx : Int) = true → (a < l → idx + (rangeItems a l s).length = last + 1) →
-      EnvRel sc env e → BufIs buf e out →
+      EnvRel R.entry sc env e → BufIs buf e out →
       e.locals.find? (·.1 == xn) = some (xn, .num l) →
       e.locals.find? (·.1 == xs) = some (xs, .num s) →
       e.locals.find? (·.1 == xi) = some (xi, .num idx) →
       e.locals.find? (·.1 == lv) = some (lv, .num a) →
-      execLoopStep (execStmts F fuel rb.1) lv xn xs xi k e = .error →
-      ∀ t, Spec.Eval.loopSpec (refBlock F ae body) env v last (rangeItems a l s) idx ≠ .val t := by
+      execLoopStep (execStmts F G fuel rb.1) lv xn xs xi k e = .error →
+      ∀ t, Spec.Eval.loopSpec (refBlock F R ae body) env v last (rangeItems a l s) idx ≠ .val t := by
   have uN : IsUse b!"Limit" := Or.inr (Or.inr (Or.inl rfl))
   have uS : IsUse b!"Step" := Or.inr (Or.inr (Or.inr (Or.inr rfl)))
   have uI : IsUse b!"Index" := Or.inr (Or.inr (Or.inr (Or.inl rfl)))
@@ -1115,7 +1117,7 @@ theorem range_loop_ne {sc : Scope} (hs : ScOk sc) (hg : GoodBuf sc buf) (v : Byt
           have e1 : decide (l ≤ a + s) = true := by simp; omega
           have e2 : (idx == last) = true := by simp; omega
           rw [e1, e2]
-      have hrel_a : EnvRel (sc.pushForRange v).2
+      have hrel_a : EnvRel R.entry (sc.pushForRange v).2
           { (env.bind v (.int a)) with loops := (v, idx, last) :: env.loops } e :=
         envRel_forrange sc env e v hv a s l idx last hrel hexa hexi (by rw [← hlv]; exact h3) (by rw [← hxs]; exact hst)
           (by rw [← hxn]; exact h2) (by rw [← hxi]; exact hix) hdec
@@ -1222,10 +1224,10 @@ theorem range_args_val (env : SEnv) (pf : Nat) (args : ExprList) (l : Expr) (hl 
           exact ⟨⟨w2, hw2⟩, ⟨w1, hw1⟩⟩
         | cons _ _ => simp [rangeLimit] at hl
 
-theorem range_ne (p : Nat) (v : Bytes) (list : Expr) (body : Block) (ihb : BodyOk F ae buf body) (ihn : BodyNe F ae buf body) :
+theorem range_ne (p : Nat) (v : Bytes) (list : Expr) (body : Block) (ihb : BodyOk F G R ae buf body) (ihn : BodyNe F G R ae buf body) :
     ∀ (fuel : Nat) (sc : Scope) (r : JsStmts × Scope) (env : SEnv) (jenv : JEnv) (out : Bytes),
-      rangeJoin v list sc (toBody ae buf body (sc.pushForRange v).2) true = some r → ScOk sc → GoodBuf sc buf → EnvRel sc env jenv →
-      BufIs buf jenv out → execStmts F fuel r.1 jenv = .error → ∀ x, refCmd F ae (.forc p v list body none) env ≠ .val x := by
+      rangeJoin v list sc (toBody ae buf body (sc.pushForRange v).2) true = some r → ScOk sc → GoodBuf sc buf → EnvRel R.entry sc env jenv →
+      BufIs buf jenv out → execStmts F G fuel r.1 jenv = .error → ∀ x, refCmd F R ae (.forc p v list body none) env ≠ .val x := by
   intro fuel sc r env jenv out h hs hg hrel hb hx
   obtain ⟨hv, _, args, l, c, jl, ji, rbv, pc, hr, hl, hinc, hpos, hjl, hji, hrb, rfl⟩ := rangeJoin_some h
   obtain ⟨pf, rfl⟩ := isRangeCall_some hr
@@ -1320,7 +1322,7 @@ theorem range_ne (p : Nat) (v : Bytes) (list : Expr) (body : Block) (ihb : BodyO
     rw [find_setLocal_ne _ _ buf _ (nb _ uI).symm, find_setLocal_ne _ _ buf _ (nb _ u0).symm,
       find_setLocal_ne _ _ buf _ (nb _ uS).symm, find_setLocal_ne _ _ buf _ (nb _ uN).symm]
     exact hb
-  have hne := range_loop_ne F ae buf hs hg v hv body rbv hrb ihb ihn env lim c hpos fuel
+  have hne := range_loop_ne F G R ae buf hs hg v hv body rbv hrb ihb ihn env lim c hpos fuel
     ((rangeItems a lim c).length - 1) _ _ _ _ rfl rfl rfl rfl fuel a 0 _ out hexa (by decide)
     (fun hlt => by rw [rangeItems_step a lim c hpos hlt]; simp) hrel4 hb4 fN fS (find_setLocal_eq _ _ _) fV h3
   have hev : Spec.Eval.eval env (.func pf b!"range" args) = .val (.list (rangeItems a lim c)) := by
@@ -1339,11 +1341,11 @@ theorem range_ne (p : Nat) (v : Bytes) (list : Expr) (body : Block) (ihb : BodyO
 /-! ### the loop commands -/
 
 /-- the two declarations in front of a foreach loop: if one throws, the specification has no list -/
-theorem foreach_prefix_ne {sc : Scope} (env : SEnv) (jenv : JEnv) (hrel : EnvRel sc env jenv) (list : Expr) (j : JsExpr)
+theorem foreach_prefix_ne {sc : Scope} (env : SEnv) (jenv : JEnv) (hrel : EnvRel ent sc env jenv) (list : Expr) (j : JsExpr)
     (hj : toAst sc list = some j) (fuel : Nat) (xl xn : Bytes) (rest : JEnv → SRes)
-    (hx : ((execStmt F fuel (.var xl j) jenv).bind fun e1 => (execStmt F fuel (.varLength xn xl) e1).bind rest) = .error) :
+    (hx : ((execStmt F G fuel (.var xl j) jenv).bind fun e1 => (execStmt F G fuel (.varLength xn xl) e1).bind rest) = .error) :
     (∀ w, Spec.Eval.eval env list ≠ .val (.list w)) ∨
-      ∃ e1 e2, execStmt F fuel (.var xl j) jenv = .ok e1 ∧ execStmt F fuel (.varLength xn xl) e1 = .ok e2 ∧ rest e2 = .error := by
+      ∃ e1 e2, execStmt F G fuel (.var xl j) jenv = .ok e1 ∧ execStmt F G fuel (.varLength xn xl) e1 = .ok e2 ∧ rest e2 = .error := by
   rcases sres_bind_error hx with h1 | ⟨e1, h1, hx⟩
   · left
     simp only [execStmt] at h1
@@ -1372,30 +1374,30 @@ theorem foreach_prefix_ne {sc : Scope} (env : SEnv) (jenv : JEnv) (hrel : EnvRel
     · cases h2
   · exact Or.inr ⟨e1, e2, h1, h2, hx⟩
 
-theorem forc_none_ne (p : Nat) (v : Bytes) (list : Expr) (body : Block) (ihb : BodyOk F ae buf body)
-    (ihn : BodyNe F ae buf body) : CmdNe F ae buf (.forc p v list body none) := by
+theorem forc_none_ne (p : Nat) (v : Bytes) (list : Expr) (body : Block) (ihb : BodyOk F G R ae buf body)
+    (ihn : BodyNe F G R ae buf body) : CmdNe F G R ae buf (.forc p v list body none) := by
   intro fuel sc r env jenv out h hs hg hrel hb hx
   unfold toCmd at h
   rcases loopJoin_some h with h | h
-  case inr => exact range_ne F ae buf p v list body ihb ihn fuel sc r env jenv out h hs hg hrel hb hx
+  case inr => exact range_ne F G R ae buf p v list body ihb ihn fuel sc r env jenv out h hs hg hrel hb hx
   obtain ⟨hv, _, j, rbv, hj, hrb, he⟩ := forcJoin_some h
   simp only at he
   subst he
   simp only [foreachStmts, JsStmts.one, execStmts] at hx
   simp only [refCmd]
-  rcases foreach_prefix_ne F env jenv hrel list j hj fuel _ _ _ hx with hno | ⟨e1, e2, h1, h2, hx⟩
+  rcases foreach_prefix_ne F G env jenv hrel list j hj fuel _ _ _ hx with hno | ⟨e1, e2, h1, h2, hx⟩
   · intro x hxv
     obtain ⟨lv, hlv, hxv⟩ := out_bind_val hxv
     cases lv <;> simp at hxv
     exact hno _ hlv
-  obtain ⟨xs, js, hev, hxs, hexl, _, _, _, he2, _, _⟩ := foreach_core F ae buf hs hg v hv list j hj body rbv hrb ihb env jenv out
+  obtain ⟨xs, js, hev, hxs, hexl, _, _, _, he2, _, _⟩ := foreach_core F G R ae buf hs hg v hv list j hj body rbv hrb ihb env jenv out
     hrel hb fuel _ _ _ _ rfl rfl rfl rfl e1 e2 h1 h2
   rcases sres_bind_error hx with h3 | ⟨e3, _, hx⟩
   case inr => cases hx
   simp only [execStmt] at h3
   rw [he2] at h3
   obtain ⟨r3, b3, _, f1, f2, f3⟩ := foreach_e3 buf hs hg v hv env jenv out hrel hb js _ _ _ rfl rfl rfl _ rfl
-  have hne := loop_ne F ae buf hs hg v hv body rbv hrb ihb ihn env xs js hxs fuel (xs.length - 1) hexl
+  have hne := loop_ne F G R ae buf hs hg v hv body rbv hrb ihb ihn env xs js hxs fuel (xs.length - 1) hexl
       (fun hne => by have := List.length_pos_iff.mpr hne; omega) _ _ _ _ rfl rfl rfl rfl
     xs 0 List.drop_zero fuel _ out r3 b3 f1 f2 f3 h3
   rw [hev]
@@ -1406,8 +1408,8 @@ theorem forc_none_ne (p : Nat) (v : Bytes) (list : Expr) (body : Block) (ihb : B
     simp only [List.isEmpty_cons, Bool.false_eq_true, if_false]
     exact out_bind_not_val hne
 
-theorem forc_some_ne (p : Nat) (v : Bytes) (list : Expr) (body ie : Block) (ihb : BodyOk F ae buf body)
-    (ihn : BodyNe F ae buf body) (ihe : BlockNe F ae buf ie) : CmdNe F ae buf (.forc p v list body (some ie)) := by
+theorem forc_some_ne (p : Nat) (v : Bytes) (list : Expr) (body ie : Block) (ihb : BodyOk F G R ae buf body)
+    (ihn : BodyNe F G R ae buf body) (ihe : BlockNe F G R ae buf ie) : CmdNe F G R ae buf (.forc p v list body (some ie)) := by
   intro fuel sc r env jenv out h hs hg hrel hb hx
   unfold toCmd at h
   have h := (loopJoin_some h).resolve_right (by intro h'; have := (rangeJoin_some h').2.1; simp at this)
@@ -1416,12 +1418,12 @@ theorem forc_some_ne (p : Nat) (v : Bytes) (list : Expr) (body ie : Block) (ihb 
   obtain ⟨re, hre, rfl⟩ := he
   simp only [foreachStmts, JsStmts.one, execStmts] at hx
   simp only [refCmd]
-  rcases foreach_prefix_ne F env jenv hrel list j hj fuel _ _ _ hx with hno | ⟨e1, e2, h1, h2, hx⟩
+  rcases foreach_prefix_ne F G env jenv hrel list j hj fuel _ _ _ hx with hno | ⟨e1, e2, h1, h2, hx⟩
   · intro x hxv
     obtain ⟨lv, hlv, hxv⟩ := out_bind_val hxv
     cases lv <;> simp at hxv
     exact hno _ hlv
-  obtain ⟨xs, js, hev, hxs, hexl, hrel2, hb2, _, he2, hfn, _⟩ := foreach_core F ae buf hs hg v hv list j hj body rbv hrb ihb
+  obtain ⟨xs, js, hev, hxs, hexl, hrel2, hb2, _, he2, hfn, _⟩ := foreach_core F G R ae buf hs hg v hv list j hj body rbv hrb ihb
     env jenv out hrel hb fuel _ _ _ _ rfl rfl rfl rfl e1 e2 h1 h2
   have hlen := C04c.toJsList_length xs js hxs
   have hst : rbv.2.pop.stack = sc.stack := by
@@ -1452,7 +1454,7 @@ theorem forc_some_ne (p : Nat) (v : Bytes) (list : Expr) (body ie : Block) (ihb 
     simp only [execStmt] at h4
     rw [he2] at h4
     obtain ⟨r3, b3, _, f1, f2, f3⟩ := foreach_e3 buf hs hg v hv env jenv out hrel hb js _ _ _ rfl rfl rfl _ rfl
-    have hne := loop_ne F ae buf hs hg v hv body rbv hrb ihb ihn env xs js hxs fuel (xs.length - 1) hexl
+    have hne := loop_ne F G R ae buf hs hg v hv body rbv hrb ihb ihn env xs js hxs fuel (xs.length - 1) hexl
       (fun hne => by have := List.length_pos_iff.mpr hne; omega) _ _ _ _ rfl rfl rfl rfl
       xs 0 List.drop_zero fuel _ out r3 b3 f1 f2 f3 h4
     cases xs with
@@ -1462,7 +1464,7 @@ theorem forc_some_ne (p : Nat) (v : Bytes) (list : Expr) (body ie : Block) (ihb 
       exact out_bind_not_val hne
   · have : decide ((0 : Int) < (js.length : Int)) = false := by simpa using hpos
     simp only [this, toBoolean, Bool.false_eq_true, if_false] at h3
-    have hrel2' : EnvRel rbv.2.pop env e2 := envRel_stack hrel2 hst
+    have hrel2' : EnvRel R.entry rbv.2.pop env e2 := envRel_stack hrel2 hst
     have hne := ihe fuel _ re env e2 out hre hs' (goodBuf_of_stack hg hst hn) hrel2' hb2 h3
     cases xs with
     | nil =>
@@ -1470,8 +1472,8 @@ theorem forc_some_ne (p : Nat) (v : Bytes) (list : Expr) (body ie : Block) (ihb 
       exact out_bind_not_val hne
     | cons x xs' => simp only [List.length_cons] at hlen; omega
 
-theorem letContent_ne (p : Nat) (name : Bytes) (body : Block) (ih : ∀ buf', BlockNe F ae buf' body) :
-    CmdNe F ae buf (.letContent p name body) := by
+theorem letContent_ne (p : Nat) (name : Bytes) (body : Block) (ih : ∀ buf', BlockNe F G R ae buf' body) :
+    CmdNe F G R ae buf (.letContent p name body) := by
   intro fuel sc r env jenv out h hs hg hrel hb hx
   unfold toCmd at h
   obtain ⟨hname, rbv, hrb, rfl⟩ := letJoin_some h
@@ -1486,45 +1488,216 @@ theorem letContent_ne (p : Nat) (name : Bytes) (body : Block) (ih : ∀ buf', Bl
   subst h1
   have k1 : Keeps buf sc.n jenv (setLocal jenv (sc.genname name).1 (.str [])) :=
     keeps_setNew buf sc.n jenv hname (Or.inl rfl) (Nat.lt_succ_self _) _
-  have hrel1 : EnvRel (sc.genname name).2 env (setLocal jenv (sc.genname name).1 (.str [])) :=
+  have hrel1 : EnvRel R.entry (sc.genname name).2 env (setLocal jenv (sc.genname name).1 (.str [])) :=
     envRel_keep hrel k1 hs.2 (Nat.le_refl _) hg.2 rfl
   simp only [refCmd]
   exact out_bind_not_val (ih (sc.genname name).1 fuel _ rbv env _ [] hrb hs' hg' hrel1 (find_setLocal_eq _ _ _) hx)
 
+/-! ### call -/
+
+/-- the callee oracle throws only where the reference's `call` does not render -/
+def CallRelE : Prop :=
+  ∀ (name : Bytes) (ce : Spec.Eval.CallEnv) (jd : List (Bytes × JVal)),
+    C04c.toJsKvs ce.entry = some jd → G name (.obj jd) = .error →
+    ∀ callee out, Registry.lookup R.reg name = some callee → R.call callee ce ≠ .val out
+
+/-- the params of a call: where the statements that fill the content params' buffers throw, or the `key: value`
+    list throws when evaluated afterwards, the reference has no params -/
+def ParamsNe (ps : ParamList) : Prop :=
+  ∀ (fuel : Nat) (sc : Scope) (r : JsStmts × List (Bytes × JsExpr) × Scope) (env : SEnv) (jenv : JEnv),
+    toParams ae ps sc = some r → ScOk sc → EnvRel R.entry sc env jenv →
+    (execStmts F G fuel r.1 jenv = .error → ∀ bs, refParams F R ae ps env ≠ .val bs) ∧
+    (∀ (jenvF jenv2 : JEnv) (acc : List (Bytes × JVal)), execStmts F G fuel r.1 jenv = .ok jenvF →
+      KeepsAll r.2.2.n jenvF jenv2 → evalParams jenv2 r.2.1 acc = .inl .error → ∀ bs, refParams F R ae ps env ≠ .val bs)
+
+theorem params_nil_ne : ParamsNe F G R ae .nil := by
+  intro fuel sc r env jenv h hs hrel
+  simp only [toParams, Option.some.injEq] at h; subst h
+  refine ⟨fun hx => by simp [execStmts] at hx, fun _ _ _ _ _ hev => by simp [evalParams] at hev⟩
+
+theorem params_value_ne (p : Nat) (key : Bytes) (e : Expr) (rest : ParamList) (ihok : ParamsOk F G R ae rest)
+    (iht : ParamsNe F G R ae rest) : ParamsNe F G R ae (.value p key e rest) := by
+  intro fuel sc r env jenv h hs hrel
+  unfold toParams at h
+  obtain ⟨j, rr, hj, hrr, hr⟩ := valueParamJoin_some h rfl
+  simp only [Option.some.injEq] at hr; subst hr
+  obtain ⟨t1, t2⟩ := iht fuel sc rr env jenv hrr hs hrel
+  obtain ⟨_, b2⟩ := toParams_scope ae rest sc rr hrr hs
+  refine ⟨?_, ?_⟩
+  · intro hx bs hbs
+    simp only [refParams] at hbs
+    obtain ⟨v, _, hbs⟩ := out_bind_val hbs
+    obtain ⟨r', hr', _⟩ := out_bind_val hbs
+    exact t1 hx r' hr'
+  · intro jenvF jenv2 acc hx hk2 hev bs hbs
+    simp only [refParams] at hbs
+    obtain ⟨v, hv, hbs⟩ := out_bind_val hbs
+    obtain ⟨r', hr', _⟩ := out_bind_val hbs
+    obtain ⟨kt, _⟩ := ihok fuel sc rr env jenv jenvF hrr hs hrel hx
+    have hrel2 : EnvRel R.entry sc env jenv2 := envRel_keepAll hrel (kt.trans hk2 b2) hs.2 (Nat.le_refl _) rfl
+    simp only [evalParams] at hev
+    cases hjv : eval jenv2 j with
+    | error => exact expr_no_throw sc env jenv2 hrel2 e j hj hjv v hv
+    | unspec => rw [hjv] at hev; simp at hev
+    | val jv =>
+      rw [hjv] at hev
+      exact t2 jenvF jenv2 ((key, jv) :: acc) hx hk2 hev r' hr'
+
+theorem params_content_ne (p : Nat) (key : Bytes) (body : Block) (rest : ParamList)
+    (ihb : ∀ buf', BlockOk F G R ae buf' body) (ihn : ∀ buf', BlockNe F G R ae buf' body)
+    (ihok : ParamsOk F G R ae rest) (iht : ParamsNe F G R ae rest) : ParamsNe F G R ae (.content p key body rest) := by
+  intro fuel sc r env jenv h hs hrel
+  unfold toParams at h
+  obtain ⟨rb, rr, hrb, hrr, rfl⟩ := contentParamJoin_some h
+  have hname : (b!"param" : Bytes).contains 36 = false := by decide
+  refine ⟨?_, ?_⟩
+  · intro hx bs hbs
+    simp only [refParams] at hbs
+    obtain ⟨text', ht', hbs⟩ := out_bind_val hbs
+    obtain ⟨r', hr', _⟩ := out_bind_val hbs
+    rw [execStmts_append] at hx
+    rcases sres_bind_error hx with h1 | ⟨e1, h1, hx2⟩
+    · -- the body throws
+      have hs' : ScOk (sc.genname b!"param").2 := scOk_of_stack hs rfl (Nat.le_succ _)
+      have hg' : GoodBuf (sc.genname b!"param").2 (sc.genname b!"param").1 :=
+        ⟨old_jsname hname (Or.inl rfl) (Nat.le_refl _), fun f hf kv hkv => (hs.2 f hf kv hkv).2 b!"param" [] (sc.n + 1) hname
+          (Or.inl rfl) (Nat.lt_succ_self _)⟩
+      simp only [execStmts] at h1
+      rcases sres_bind_error h1 with h0 | ⟨e0, h0, h1⟩
+      · simp [execStmt] at h0
+      simp only [execStmt, SRes.ok.injEq] at h0
+      subst h0
+      have k1 : Keeps (sc.genname b!"param").1 sc.n jenv (setLocal jenv (sc.genname b!"param").1 (.str [])) :=
+        keeps_setNew _ sc.n jenv hname (Or.inl rfl) (Nat.lt_succ_self _) _
+      have hrel1 : EnvRel R.entry (sc.genname b!"param").2 env (setLocal jenv (sc.genname b!"param").1 (.str [])) :=
+        envRel_keep hrel k1 hs.2 (Nat.le_refl _) hg'.2 rfl
+      exact ihn (sc.genname b!"param").1 fuel _ rb env _ [] hrb hs' hg' hrel1 (find_setLocal_eq _ _ _) h1 text' ht'
+    · obtain ⟨text, ht, hb', hka, hrelt, hs1, a2', _⟩ := content_param_run F G R ae body ihb hrb hs hrel h1
+      exact (iht fuel rb.2 rr env e1 hrr hs1 hrelt).1 hx2 r' hr'
+  · intro jenvF jenv2 acc hx hk2 hev bs hbs
+    simp only [refParams] at hbs
+    obtain ⟨text', ht', hbs⟩ := out_bind_val hbs
+    obtain ⟨r', hr', _⟩ := out_bind_val hbs
+    rw [execStmts_append] at hx
+    obtain ⟨e1, h1, hx2⟩ := sres_bind_ok hx
+    obtain ⟨text, ht, hb', hka, hrelt, hs1, a2', _⟩ := content_param_run F G R ae body ihb hrb hs hrel h1
+    obtain ⟨_, b2⟩ := toParams_scope ae rest rb.2 rr hrr hs1
+    obtain ⟨kt, _⟩ := ihok fuel rb.2 rr env e1 jenvF hrr hs1 hrelt hx2
+    simp only [evalParams] at hev
+    rw [content_param_find a2' b2 hb' kt hk2] at hev
+    exact (iht fuel rb.2 rr env e1 hrr hs1 hrelt).2 jenvF jenv2 _ hx2 hk2 hev r' hr'
+
+theorem base_ne {sc : Scope} {env : SEnv} {jenv : JEnv} (hrel : EnvRel R.entry sc env jenv) {allData : Bool}
+    {data : Option Expr} {base : DataBase} (hbase : callBase sc allData data = some base)
+    (hbv : evalBase jenv base = .error) : ∀ bd, refBase R allData data env ≠ .val bd := by
+  cases allData <;> cases data <;> simp only [callBase, Option.some.injEq, Option.map_eq_some_iff, reduceCtorEq] at hbase
+  · subst hbase; simp [evalBase] at hbv
+  · obtain ⟨j, hj, rfl⟩ := hbase
+    simp only [evalBase] at hbv
+    intro bd hbd
+    simp only [refBase, Bool.false_eq_true, if_false] at hbd
+    obtain ⟨v, hv, _⟩ := out_bind_val hbd
+    exact expr_no_throw sc env jenv hrel _ j hj hbv v hv
+  · subst hbase; simp [evalBase] at hbv
+
+theorem call_ne (hGe : CallRelE G R) (p : Nat) (name : Bytes) (allData : Bool) (data : Option Expr)
+    (params : ParamList) (ihok : ParamsOk F G R ae params) (ihne : ParamsNe F G R ae params) :
+    CmdNe F G R ae buf (.call p name allData data params) := by
+  intro fuel sc r env jenv out h hs hg hrel hb hx x hx'
+  unfold toCmd at h
+  obtain ⟨base, rp, hbase, hrp, rfl⟩ := callJoin_some h
+  simp only [refCmd] at hx'
+  cases hlk : Registry.lookup R.reg name with
+  | none => simp [hlk] at hx'
+  | some callee =>
+    simp only [hlk] at hx'
+    obtain ⟨bd, hbd, hx'⟩ := out_bind_val hx'
+    obtain ⟨bs, hbs, hx'⟩ := out_bind_val hx'
+    obtain ⟨outc, hc, _⟩ := out_bind_val hx'
+    obtain ⟨n1, n2⟩ := ihne fuel sc rp env jenv hrp hs hrel
+    rw [execStmts_append] at hx
+    rcases sres_bind_error hx with hx1 | ⟨jenvF, hx1, hx2⟩
+    · exact n1 hx1 bs hbs
+    · rw [execStmts_one] at hx2
+      simp only [execStmt] at hx2
+      obtain ⟨kp, hpp⟩ := ihok fuel sc rp env jenv jenvF hrp hs hrel hx1
+      have hrelF : EnvRel R.entry sc env jenvF := envRel_keepAll hrel kp hs.2 (Nat.le_refl _) rfl
+      have hbF : BufIs buf jenvF out := by unfold BufIs; rw [kp.2.2 buf hg.1]; exact hb
+      rcases withVal_error hx2 with hbe | ⟨bv, hbv, hx2⟩
+      · exact base_ne R hrelF hbase hbe bd hbd
+      · cases bv with
+        | obj bkvs =>
+          cases hep : evalParams jenvF rp.2.1 [] with
+          | inl o =>
+            rw [hep] at hx2
+            cases o with
+            | error => exact n2 jenvF jenvF [] hx1 (KeepsAll.refl _ _) hep bs hbs
+            | unspec => cases hx2
+            | val _ => cases hx2
+          | inr extra =>
+            rw [hep] at hx2
+            simp only at hx2
+            obtain ⟨bs', jbs, hr, hjb, he⟩ := hpp jenvF [] extra (KeepsAll.refl _ _) hep
+            simp only [List.append_nil] at he; subst he
+            rw [hbs] at hr
+            simp only [Out.val.injEq] at hr; subst hr
+            obtain ⟨bd', hbd', hbj⟩ := base_ok R hrelF hbase hbv
+            rw [hbd] at hbd'
+            simp only [Out.val.injEq] at hbd'; subst hbd'
+            rcases withVal_error hx2 with hge | ⟨rv, _, hx2⟩
+            · exact hGe name ⟨bs ++ bd, env.ij, env.globals⟩ (extra ++ bkvs) (toJsKvs_append _ _ _ _ hjb hbj) hge callee outc hlk hc
+            · exact appendTo_ne_error hbF rv hx2
+        | undefined => cases hx2
+        | null => cases hx2
+        | bool _ => cases hx2
+        | num _ => cases hx2
+        | str _ => cases hx2
+        | arr _ => cases hx2
+
+variable (hG : CallRel G R) (hGe : CallRelE G R)
+include hG hGe
+
 mutual
-  theorem cmd_ne : ∀ (c : Cmd) (buf : Bytes), CmdNe F ae buf c
-    | .rawText p t, buf => rawText_ne F ae buf p t
-    | .print p arg dirs, buf => print_ne F ae buf p arg dirs
-    | .letValue p x e, buf => letValue_ne F ae buf p x e
-    | .ifc p conds, buf => ifc_ne F ae buf p conds (conds_ne conds buf)
-    | .switch p value cases, buf => switch_ne F ae buf p value cases (cases_ne cases buf)
-    | .forc p v list body none, buf => forc_none_ne F ae buf p v list body (body_ok' F ae body buf) (body_ne' body buf)
+  theorem cmd_ne : ∀ (c : Cmd) (buf : Bytes), CmdNe F G R ae buf c
+    | .rawText p t, buf => rawText_ne F G R ae buf p t
+    | .print p arg dirs, buf => print_ne F G R ae buf p arg dirs
+    | .letValue p x e, buf => letValue_ne F G R ae buf p x e
+    | .ifc p conds, buf => ifc_ne F G R ae buf p conds (conds_ne conds buf)
+    | .switch p value cases, buf => switch_ne F G R ae buf p value cases (cases_ne cases buf)
+    | .forc p v list body none, buf => forc_none_ne F G R ae buf p v list body (body_ok' F G R ae hG body buf) (body_ne' body buf)
     | .forc p v list body (some ie), buf =>
-      forc_some_ne F ae buf p v list body ie (body_ok' F ae body buf) (body_ne' body buf) (block_ne' ie buf)
-    | .letContent p name body, buf => letContent_ne F ae buf p name body (fun b' => block_ne' body b')
+      forc_some_ne F G R ae buf p v list body ie (body_ok' F G R ae hG body buf) (body_ne' body buf) (block_ne' ie buf)
+    | .letContent p name body, buf => letContent_ne F G R ae buf p name body (fun b' => block_ne' body b')
     | .msg .., _ => fun _ _ _ _ _ _ h => by simp [toCmd] at h
     | .css .., _ => fun _ _ _ _ _ _ h => by simp [toCmd] at h
     | .debugger .., _ => fun _ _ _ _ _ _ h => by simp [toCmd] at h
     | .log .., _ => fun _ _ _ _ _ _ h => by simp [toCmd] at h
-    | .call .., _ => fun _ _ _ _ _ _ h => by simp [toCmd] at h
+    | .call p name allData data params, buf =>
+      call_ne F G R ae buf hGe p name allData data params (params_ok F G R ae hG params) (params_ne params)
     | .headerParam .., _ => fun _ _ _ _ _ _ h => by simp [toCmd] at h
     | .namespace .., _ => fun _ _ _ _ _ _ h => by simp [toCmd] at h
     | .template .., _ => fun _ _ _ _ _ _ h => by simp [toCmd] at h
     | .soyDoc .., _ => fun _ _ _ _ _ _ h => by simp [toCmd] at h
-  theorem body_ne' : ∀ (b : Block) (buf : Bytes), BodyNe F ae buf b
-    | .mk p cmds, buf => body_ne F ae buf p cmds (cmds_ne cmds buf)
-  theorem block_ne' : ∀ (b : Block) (buf : Bytes), BlockNe F ae buf b
-    | .mk p cmds, buf => block_ne F ae buf p cmds (cmds_ne cmds buf)
-  theorem cmds_ne : ∀ (cs : CmdList) (buf : Bytes), CmdsNe F ae buf cs
-    | .nil, buf => cmds_nil_ne F ae buf
-    | .cons c rest, buf => cmds_cons_ne F ae buf c rest (cmd_ne c buf) (cmds_ne rest buf)
-  theorem cases_ne : ∀ (cs : CaseList) (buf : Bytes), CasesNe F ae buf cs
-    | .nil, buf => cases_nil_ne F ae buf
-    | .cons p values body rest, buf => cases_cons_ne F ae buf p values body rest (block_ne' body buf) (cases_ne rest buf)
-  theorem conds_ne : ∀ (cs : CondList) (buf : Bytes), CondsNe F ae buf cs
-    | .nil, buf => conds_nil_ne F ae buf
-    | .cons p (some c) body rest, buf => conds_some_ne F ae buf p c body rest (block_ne' body buf) (conds_ne rest buf)
-    | .cons p none body rest, buf => conds_else_ne F ae buf p body rest (block_ne' body buf)
+  theorem params_ne : ∀ (ps : ParamList), ParamsNe F G R ae ps
+    | .nil => params_nil_ne F G R ae
+    | .value p key e rest => params_value_ne F G R ae p key e rest (params_ok F G R ae hG rest) (params_ne rest)
+    | .content p key body rest =>
+      params_content_ne F G R ae p key body rest (fun b' => block_ok' F G R ae hG body b') (fun b' => block_ne' body b')
+        (params_ok F G R ae hG rest) (params_ne rest)
+  theorem body_ne' : ∀ (b : Block) (buf : Bytes), BodyNe F G R ae buf b
+    | .mk p cmds, buf => body_ne F G R ae buf p cmds (cmds_ne cmds buf)
+  theorem block_ne' : ∀ (b : Block) (buf : Bytes), BlockNe F G R ae buf b
+    | .mk p cmds, buf => block_ne F G R ae buf p cmds (cmds_ne cmds buf)
+  theorem cmds_ne : ∀ (cs : CmdList) (buf : Bytes), CmdsNe F G R ae buf cs
+    | .nil, buf => cmds_nil_ne F G R ae buf
+    | .cons c rest, buf => cmds_cons_ne F G R ae buf hG c rest (cmd_ne c buf) (cmds_ne rest buf)
+  theorem cases_ne : ∀ (cs : CaseList) (buf : Bytes), CasesNe F G R ae buf cs
+    | .nil, buf => cases_nil_ne F G R ae buf
+    | .cons p values body rest, buf => cases_cons_ne F G R ae buf p values body rest (block_ne' body buf) (cases_ne rest buf)
+  theorem conds_ne : ∀ (cs : CondList) (buf : Bytes), CondsNe F G R ae buf cs
+    | .nil, buf => conds_nil_ne F G R ae buf
+    | .cons p (some c) body rest, buf => conds_some_ne F G R ae buf p c body rest (block_ne' body buf) (conds_ne rest buf)
+    | .cons p none body rest, buf => conds_else_ne F G R ae buf p body rest (block_ne' body buf)
 end
 
 /-- PARTIAL (C04, the converse for the command fragment): if the reference semantics renders the commands
@@ -1532,28 +1705,29 @@ end
     fuel, any interpretation `F` of the directive functions — either COMPLETES with the buffer holding its
     old content followed by exactly `t`, or leaves the common subset (`unspec`: an integer a double does
     not hold exactly, a print of a list or a map, a comparison outside the subset, the loop bound
-    `fuel`).  It never throws. -/
-theorem gen_complete_cmds_partial (cmds : CmdList) (sc : Scope) (r : JsStmts × Scope) (h : toCmds ae buf cmds sc = some r)
-    (env : SEnv) (jenv : JEnv) (out : Bytes) (hs : ScOk sc) (hg : GoodBuf sc buf) (hrel : EnvRel sc env jenv)
-    (hb : BufIs buf jenv out) (t : Bytes) (ht : refCmds F ae cmds env = .val t) (fuel : Nat) :
-    (∃ jenv', execStmts F fuel r.1 jenv = .ok jenv' ∧ BufIs buf jenv' (out ++ t)) ∨ execStmts F fuel r.1 jenv = .unspec := by
-  cases hx : execStmts F fuel r.1 jenv with
+    `fuel`).  It never throws.  `{call}`: under `CallRel` and `CallRelE` (the callee's function returns the text the
+    reference's `call` renders, and throws only where `call` does not render). -/
+theorem gen_complete_cmds_partial (hG : CallRel G R) (hGe : CallRelE G R) (cmds : CmdList) (sc : Scope) (r : JsStmts × Scope) (h : toCmds ae buf cmds sc = some r)
+    (env : SEnv) (jenv : JEnv) (out : Bytes) (hs : ScOk sc) (hg : GoodBuf sc buf) (hrel : EnvRel R.entry sc env jenv)
+    (hb : BufIs buf jenv out) (t : Bytes) (ht : refCmds F R ae cmds env = .val t) (fuel : Nat) :
+    (∃ jenv', execStmts F G fuel r.1 jenv = .ok jenv' ∧ BufIs buf jenv' (out ++ t)) ∨ execStmts F G fuel r.1 jenv = .unspec := by
+  cases hx : execStmts F G fuel r.1 jenv with
   | ok jenv' =>
-    obtain ⟨text, ht', hb', _⟩ := cmds_ok F ae cmds buf fuel sc r env jenv jenv' out h hs hg hrel hb hx
+    obtain ⟨text, ht', hb', _⟩ := cmds_ok F G R ae hG cmds buf fuel sc r env jenv jenv' out h hs hg hrel hb hx
     rw [ht] at ht'
     simp only [Out.val.injEq] at ht'
     subst ht'
     exact Or.inl ⟨jenv', rfl, hb'⟩
-  | error => exact absurd ht (cmds_ne F ae cmds buf fuel sc r env jenv out h hs hg hrel hb hx t)
+  | error => exact absurd ht (cmds_ne F G R ae hG hGe cmds buf fuel sc r env jenv out h hs hg hrel hb hx t)
   | unspec => exact Or.inr rfl
 
 /-- the same, read as "no TypeError where the reference renders" -/
-theorem gen_no_throw_cmds_partial (cmds : CmdList) (sc : Scope) (r : JsStmts × Scope)
+theorem gen_no_throw_cmds_partial (hG : CallRel G R) (hGe : CallRelE G R) (cmds : CmdList) (sc : Scope) (r : JsStmts × Scope)
     (h : toCmds ae buf cmds sc = some r) (env : SEnv) (jenv : JEnv) (out : Bytes) (hs : ScOk sc) (hg : GoodBuf sc buf)
-    (hrel : EnvRel sc env jenv) (hb : BufIs buf jenv out) (t : Bytes) (ht : refCmds F ae cmds env = .val t) (fuel : Nat) :
-    execStmts F fuel r.1 jenv ≠ .error := by
+    (hrel : EnvRel R.entry sc env jenv) (hb : BufIs buf jenv out) (t : Bytes) (ht : refCmds F R ae cmds env = .val t) (fuel : Nat) :
+    execStmts F G fuel r.1 jenv ≠ .error := by
   intro hx
-  exact cmds_ne F ae cmds buf fuel sc r env jenv out h hs hg hrel hb hx t ht
+  exact cmds_ne F G R ae hG hGe cmds buf fuel sc r env jenv out h hs hg hrel hb hx t ht
 
 end
 
@@ -1566,14 +1740,14 @@ def throwCmds : CmdList :=
 
 def throwRun (m : JVal) : Option SRes :=
   (toCmds .off b!"output" throwCmds ⟨[[]], 0⟩).map fun r =>
-    execStmts sampleF 5 r.1 ⟨[(b!"m", m)], none, [(b!"output", .str [])]⟩
+    execStmts sampleF noCall 5 r.1 ⟨[(b!"m", m)], none, [(b!"output", .str [])]⟩
 
 -- `q` missing: JavaScript throws (a property of undefined), and the reference semantics has no text either
 example : (throwRun (.obj [(b!"a", .num 1)])).map (fun r => match r with | .error => true | _ => false) = some true := rfl
-example : refCmds sampleF .off throwCmds
+example : refCmds sampleF noRef .off throwCmds
     { vars := [(b!"m", .map [(b!"a", .int 1)])], loops := [], ij := none, globals := [] } = .error := rfl
 -- `q` present: the reference renders, so (gen_complete_cmds_partial) the statements do not throw — they complete
-example : refCmds sampleF .off throwCmds
+example : refCmds sampleF noRef .off throwCmds
     { vars := [(b!"m", .map [(b!"q", .map [(b!"z", .int 7)])])], loops := [], ij := none, globals := [] } = .val b!"A7B" := rfl
 example : (throwRun (.obj [(b!"q", .obj [(b!"z", .num 7)])])).map (fun r => match r with
     | .ok e => (e.locals.find? (·.1 == b!"output")).map (·.2)
